@@ -12,7 +12,12 @@ theorem rpm_sign_ok (H : Nat → Bytes → Bytes) (mk : Bool → Bytes → Bytes
     (hs : sign H mk f = .ok o) :
     ∃ p, readBoth H f = .ok p ∧ digestPayload H p.sig.ents p.gen p.payload = .ok () ∧ o.old = sigAreaLen p ∧
       o.blob = dumpSig p.lead (signedSig mk p) ∧ nevraOf p.gen.ents = .ok o.nevra := by
-  unfold sign at hs
+  have hs : signWith nevraOf H mk f = .ok o := by
+    unfold sign recovered at hs
+    split at hs
+    · cases hs
+    · exact hs
+  unfold signWith at hs
   split at hs
   · rename_i p hp
     split at hs
@@ -103,6 +108,6 @@ theorem rpm_refusal_is_clean (H : Nat → Bytes → Bytes) (mk : Bool → Bytes 
 
 /-- a package too short for its lead is refused (non-vacuity of the refusal statement) -/
 example : ∀ o, sign (fun _ _ => []) (fun _ _ => []) [0xed, 0xab, 0xee, 0xdb] ≠ .ok o := by
-  intro o h; simp [sign, readBoth] at h
+  intro o h; simp [sign, signWith, recovered, readBoth] at h
 
 end Relic.Props.C03
